@@ -40,6 +40,27 @@ deriving Repr, Inhabited
 
 abbrev Dict := List (Str × J)
 
+/-- the Python exception classes the modelled code can raise -/
+inductive PyErr | typeError | keyError | attributeError | stopIteration
+deriving Repr, DecidableEq, Inhabited
+
+def PyErr.name : PyErr → String
+  | .typeError => "TypeError"
+  | .keyError => "KeyError"
+  | .attributeError => "AttributeError"
+  | .stopIteration => "StopIteration"
+
+/-- `r` returned a value satisfying `p` (for `decide`d statements about `Except` results) -/
+def okAnd {α} (r : Except PyErr α) (p : α → Bool) : Bool :=
+  match r with
+  | .ok a => p a
+  | .error _ => false
+/-- `r` raised `e` -/
+def raises {α} (r : Except PyErr α) (e : PyErr) : Bool :=
+  match r with
+  | .ok _ => false
+  | .error x => x == e
+
 /-! ### Python dict operations on association lists -/
 
 def hasKey {α} (d : List (Str × α)) (k : Str) : Bool := d.any (·.1 == k)
@@ -77,6 +98,33 @@ def beqKvs : List (Str × J) → List (Str × J) → Bool
   | (k, x) :: xs, (l, y) :: ys => k == l && x.beq y && beqKvs xs ys
   | _, _ => false
 end
+
+/-! ### equality of JSON values as Python compares dicts (key order ignored; keys assumed unique) -/
+mutual
+def J.eqv : J → J → Bool
+  | .null, .null => true
+  | .bool a, .bool b => a == b
+  | .num a, .num b => a == b
+  | .flt a, .flt b => a == b
+  | .str a, .str b => a == b
+  | .arr a, .arr b => eqvList a b
+  | .obj a, .obj b => a.length == b.length && eqvKvs a b
+  | _, _ => false
+def eqvList : List J → List J → Bool
+  | [], [] => true
+  | x :: xs, y :: ys => x.eqv y && eqvList xs ys
+  | _, _ => false
+/-- every key of the first dict is in the second, with an equal value -/
+def eqvKvs : List (Str × J) → List (Str × J) → Bool
+  | [], _ => true
+  | (k, v) :: rest, b => (match lookup b k with | some w => v.eqv w | none => false) && eqvKvs rest b
+end
+
+/-- two dicts list the same keys in the same order with `eqv` values (used for `paths` and `requestBodies`) -/
+def dictEqv : Dict → Dict → Bool
+  | [], [] => true
+  | (k, v) :: a, (k', v') :: b => k == k' && v.eqv v' && dictEqv a b
+  | _, _ => false
 
 /-! ### `$ref`s and their resolution -/
 
@@ -120,6 +168,7 @@ def resolves (doc : J) (r : Str) : Bool :=
 
 /-- **closed document:** every `$ref` of the document resolves to a value defined in the same document -/
 def Closed (doc : J) : Prop := ∀ r ∈ doc.refs, resolves doc r = true
+instance (doc : J) : Decidable (Closed doc) := by unfold Closed; infer_instance
 def closedB (doc : J) : Bool := doc.refs.all (resolves doc)
 def dangling (doc : J) : List Str := doc.refs.filter (fun r => !resolves doc r)
 
@@ -159,13 +208,36 @@ def pathsOf (doc : J) : Dict :=
   | some (.obj kvs) => kvs
   | _ => []
 
+def bodiesOfDoc (doc : J) : Dict :=
+  match getPath doc [c!"components", c!"requestBodies"] with
+  | some (.obj kvs) => kvs
+  | _ => []
+
+/-- the path items that carry at least one operation -/
+def withOps (paths : Dict) : Dict := paths.filter (fun kv => !(methodsOf kv.2).isEmpty)
+
 /-- every (path, method) of the document, in dict order -/
 def opsOfPaths (paths : Dict) : List (Str × Str) :=
   paths.flatMap (fun kv => (methodsOf kv.2).map (fun m => (kv.1, m)))
 def allOps (doc : J) : List (Str × Str) := opsOfPaths (pathsOf doc)
 
+/-- the `$ref` of the `requestBody` of every operation of one path item -/
+def rbRefsItem (item : J) : List Str :=
+  match item with
+  | .obj ops => ops.flatMap (fun mo => match mo.2 with
+      | .obj okv => (match lookup okv c!"requestBody" with
+        | some (.obj rb) => (match lookup rb refKey with
+          | some (.str r) => [r]
+          | _ => [])
+        | _ => [])
+      | _ => [])
+  | _ => []
+/-- every request body referenced by an operation of the document -/
+def requestBodyRefs (doc : J) : List Str := (pathsOf doc).flatMap (fun kv => rbRefsItem kv.2)
+
 def ParamsDeclared (doc : J) : Prop :=
   ∀ kv ∈ pathsOf doc, ∀ x ∈ tparams kv.1 none, x ∈ declared kv.2
+instance (doc : J) : Decidable (ParamsDeclared doc) := by unfold ParamsDeclared; infer_instance
 def paramsDeclaredB (doc : J) : Bool :=
   (pathsOf doc).all (fun kv => (tparams kv.1 none).all (fun x => (declared kv.2).contains x))
 
@@ -334,7 +406,7 @@ def truthy : J → Bool
   | .obj kvs => !kvs.isEmpty
 
 /-- the part of `parse.openapi` after `safe_load`/`loads`: `loaded` is what the loader returned for the rewritten string -/
-def parsePost (loaded : J) (nonErr : Option Str) (method summary : Str) : Except String J :=
+def parsePost (loaded : J) (nonErr : Option Str) (method summary : Str) : Except PyErr J :=
   match loaded with
   | .obj d0 =>
     let d1 : Dict := match nonErr with
@@ -346,12 +418,12 @@ def parsePost (loaded : J) (nonErr : Option Str) (method summary : Str) : Except
       | none => setKey d0 c!"summary" (.str summary)
     match lookup d1 c!"responses" with
     | some (.obj rs) => .ok (.obj (setKey d1 c!"responses" (.obj (rs.map (fun kv => (kv.1, if truthy kv.2 then kv.2 else .obj []))))))
-    | some _ => .error "AttributeError"
+    | some _ => .error .attributeError
     | none => .ok (.obj d1)
-  | _ => .error "TypeError"
+  | _ => .error .typeError
 
 /-- `openapi(openapi_str, routes_dict, summary)`; `load` stands for `yaml.safe_load` / `json.loads` (not modelled) -/
-def parseOpenapi (s : Str) (load : Str → J) (method summary : Str) : Except String J :=
+def parseOpenapi (s : Str) (load : Str → J) (method summary : Str) : Except PyErr J :=
   let (s', nonErr) := rewriteRefs s
   parsePost (load s') nonErr method summary
 
@@ -394,7 +466,7 @@ def templateLoaded : Kind → Str → J
   | .destroy, _ => .obj [(c!"responses", .obj [(c!"204", .null)])]
 
 /-- `bottle(f)` for a template-generated `f`, through the model of `parse.openapi` -/
-def payloadViaParse (k : Kind) (name : Str) : Except String J :=
+def payloadViaParse (k : Kind) (name : Str) : Except PyErr J :=
   parseOpenapi (templateYaml k name) (fun _ => templateLoaded k name) k.method (templateSummary k name)
 
 /-- `bottle(f)` for a template-generated `f`, closed form (for `name ≠ "ServerError"`) -/
@@ -418,12 +490,12 @@ def templatePayload : Kind → Str → J
 
 /-- `next(map(itemgetter(0), filter(lambda p: p[1]["doc"].startswith("[PK]"), params.items())), next(iter(params.keys())))`;
     a parameter is (name, its `doc` if the key is present) -/
-def pickPkGo : List (Str × Option Str) → Str → Except String Str
+def pickPkGo : List (Str × Option Str) → Str → Except PyErr Str
   | [], dflt => .ok dflt
-  | (_, none) :: _, _ => .error "KeyError"
+  | (_, none) :: _, _ => .error .keyError
   | (k, some doc) :: rest, dflt => if startsWith doc c!"[PK]" then .ok k else pickPkGo rest dflt
-def pickPk : List (Str × Option Str) → Except String Str
-  | [] => .error "StopIteration"
+def pickPk : List (Str × Option Str) → Except PyErr Str
+  | [] => .error .stopIteration
   | (k, d) :: rest => pickPkGo ((k, d) :: rest) k
 
 /-- one decorated function of a routes file: decorator path, decorator method, `bottle(function)` -/
@@ -488,13 +560,13 @@ def groupBy : List RouteFn → List (Str × List RouteFn)
 
 /-- `update_d(*dicts)` where each dict is `{method: bottle(f)}`: one dict → itself, two → `d.update(arg)`,
     more → `TypeError` (update_d takes at most two positional arguments) -/
-def updateD : List RouteFn → Except String Dict
+def updateD : List RouteFn → Except PyErr Dict
   | [a] => .ok [(a.method, a.payload)]
   | [a, b] => .ok (setKey [(a.method, a.payload)] b.method b.payload)
-  | _ => .error "TypeError"
+  | _ => .error .typeError
 
 /-- the object name read from the `get` (else `delete`) summary: text between the first two backticks, or "Object" -/
-def objectName (pathDict : Dict) : Except String Str :=
+def objectName (pathDict : Dict) : Except PyErr Str :=
   let src : J := match lookup pathDict c!"get" with
     | some v => v
     | none => match lookup pathDict c!"delete" with
@@ -508,9 +580,9 @@ def objectName (pathDict : Dict) : Except String Str :=
       let snd := findAtI s c!"`" (fst + 1).toNat
       let n := slice s (some (fst + 1)) (some snd)
       .ok (if n.isEmpty then c!"Object" else n)
-    | some _ => .error "AttributeError"
-    | none => .error "KeyError"
-  | _ => .error "TypeError"
+    | some _ => .error .attributeError
+    | none => .error .keyError
+  | _ => .error .typeError
 
 def bulkParam (pk objName : Str) : J := .obj [
   (c!"description", .str (c!"Primary key of target `" ++ objName ++ c!"`")),
@@ -527,7 +599,7 @@ def routeParams (route objName : Str) : List J :=
   ((split1 route '/').filter (fun r => startsWith r c!":")).map (fun r => bulkParam (r.drop 1) objName)
 
 /-- the request body registered for one value of the (merged) path dict, if it has a truthy `requestBody` -/
-def bodyOf (v : J) : Except String (Option (Str × J)) :=
+def bodyOf (v : J) : Except PyErr (Option (Str × J)) :=
   match v with
   | .obj kvs =>
     match lookup kvs c!"requestBody" with
@@ -543,15 +615,15 @@ def bodyOf (v : J) : Except String (Option (Str × J)) :=
               (c!"content", jsonContent (schemaRef key)),
               (c!"description", .str (aObject key)),
               (c!"required", .bool true)]))
-          | some _ => .error "AttributeError"
-          | none => .error "KeyError"
-        | _ => .error "TypeError"
+          | some _ => .error .attributeError
+          | none => .error .keyError
+        | _ => .error .typeError
       else .ok none
     | none => .ok none
   | _ => .ok none
 
 /-- the request bodies registered for one (merged) path dict, in `values()` order -/
-def bodiesOf : Dict → Except String (List (Str × J))
+def bodiesOf : Dict → Except PyErr (List (Str × J))
   | [] => .ok []
   | (_, v) :: rest =>
     match bodyOf v with
@@ -562,7 +634,7 @@ def bodiesOf : Dict → Except String (List (Str × J))
       | .ok tl => .ok (match h with | some x => x :: tl | none => tl)
 
 /-- the first half of `construct_parameters_and_request_bodies`: `parameters` and the rewritten route -/
-def withParams (route : Str) (pathDict : Dict) : Except String (Str × Dict) :=
+def withParams (route : Str) (pathDict : Dict) : Except PyErr (Str × Dict) :=
   if Py.contains route c!":" then
     let pd0 := setKey pathDict c!"parameters" (.arr [])
     match objectName pd0 with
@@ -571,7 +643,7 @@ def withParams (route : Str) (pathDict : Dict) : Except String (Str × Dict) :=
   else .ok (route, pathDict)
 
 /-- `construct_parameters_and_request_bodies(route, path_dict)`; returns (route', path_dict', new request bodies) -/
-def construct (route : Str) (pathDict : Dict) : Except String (Str × Dict × List (Str × J)) :=
+def construct (route : Str) (pathDict : Dict) : Except PyErr (Str × Dict × List (Str × J)) :=
   match withParams route pathDict with
   | .ok (route', pd) =>
     match bodiesOf pd with
@@ -580,7 +652,7 @@ def construct (route : Str) (pathDict : Dict) : Except String (Str × Dict × Li
   | .error e => .error e
 
 /-- `dict(map(lambda k_v: construct(k_v[0], update_d(*…)), groupby(…)))` with the shared `request_bodies` -/
-def bulkGroups : List (Str × List RouteFn) → Dict → Dict → Except String (Dict × Dict)
+def bulkGroups : List (Str × List RouteFn) → Dict → Dict → Except PyErr (Dict × Dict)
   | [], rb, paths => .ok (rb, paths)
   | (k, g) :: rest, rb, paths =>
     match updateD g with
@@ -593,14 +665,14 @@ def bulkGroups : List (Str × List RouteFn) → Dict → Dict → Except String 
 /-- `parse_route`: the functions decorated on `app_name` -/
 def ofApp (appName : Str) (routes : List RouteFn) : List RouteFn := routes.filter (fun r => r.app == appName)
 
-def bulkDoc (appName : Str) (ts : List Table) (routes : List RouteFn) : Except String Doc :=
+def bulkDoc (appName : Str) (ts : List Table) (routes : List RouteFn) : Except PyErr Doc :=
   match bulkGroups (groupBy (ofApp appName routes)) [] [] with
   | .ok (rb, paths) => .ok { requestBodies := rb, schemas := bulkSchemas ts, paths := paths }
   | .error e => .error e
 
 /-- `openapi_bulk(app_name, model_paths, routes_paths)` on the tables found in the model files and the route
     functions visible in the routes files, in file order -/
-def bulk (appName : Str) (ts : List Table) (routes : List RouteFn) : Except String J :=
+def bulk (appName : Str) (ts : List Table) (routes : List RouteFn) : Except PyErr J :=
   (bulkDoc appName ts routes).map Doc.toJ
 
 /-- the operations of the bulk document for an entry (`:pk` has become `{pk}`) -/
